@@ -201,13 +201,22 @@ def shipped_cases(ctx, batch):
                 ctx.count('unit_vectors')
             if ctx.time_left() < 120:
                 raise common.MachineryError('out of time in the exhaustive unit-vector pass')
-        # (b) random sparse / dense mappings, some with descriptors that have no data
+        # (b) random sparse / dense mappings, some with descriptors that have no data; every other one is preceded, on the
+        # same estimate object, by a request relative to the elements (needs a remembered molecule: decompose one)
+        try:
+            with L.quiet():
+                info.lib.GetDescriptors('CC')
+        except Exception:
+            pass
         for j in range(per_lib):
+            L.PRE_ELEMENTAL[0] = (j % 2 == 1)
+            ctx.count('pre_elemental' if L.PRE_ELEMENTAL[0] else 'plain_only')
             r = rng.random()
             size = rng.randint(1, 4) if r < 0.5 else rng.randint(5, min(40, len(pool))) if r < 0.93 else len(pool)
             mapping = L.random_mapping(info, rng, size, with_missing=0.2)
             T = L.temperatures(info, rng, [str(k) for k, _ in mapping], 1)[0]
             one(ctx, batch, info, mapping, T, full_lib=(j % 5 == 0), relational=(j % 3 == 0))
+        L.PRE_ELEMENTAL[0] = False
         # (c) fixed shapes: empty mapping, unregistered property set, only-missing, a group of another library
         one(ctx, batch, info, [], 298.15)
         one(ctx, batch, info, [(pool[0], 2)], 300.0, set_name='thermochem2')
@@ -246,12 +255,31 @@ def fresh_library_case(ctx, batch):
     ctx.count('fresh_library')
 
 
+def pollute_defaults(ctx):
+    """A hand-built library merged with a library that carries uncertainty data, BEFORE the synthetic libraries are built with
+    the constructor's default arguments: nothing of it may show up in libraries constructed later."""
+    GroupLibrary = L._imports()[0]
+    try:
+        with L.quiet():
+            src = [n for n in L.shipped_names() if L.shipped(n).uq][0]
+            a = GroupLibrary(None)
+            a.Update(GroupLibrary.Load(src))
+            b = GroupLibrary(None)
+        ctx.count('default_pollution_attempts')
+        if b.uq_contents or len(b.contents):
+            ctx.violation('a library constructed with default arguments holds data of a library merged into ANOTHER library earlier',
+                          {'merged_first': src}, expected='empty', observed={'uq_keys': sorted(b.uq_contents), 'groups': len(b.contents)})
+    except Exception as e:
+        raise common.MachineryError('pollution attempt failed: %r' % (e,))
+
+
 def run(ctx):
     batch = []
     for fname, rec in common.load_corpus('C01'):
         ctx.count('corpus')
         if not replay(ctx, rec, batch):
             ctx.count('corpus_failing')
+    pollute_defaults(ctx)
     fresh_library_case(ctx, batch)
     shipped_cases(ctx, batch)
     synthetic_cases(ctx, batch)
